@@ -240,6 +240,8 @@ impl LayoutSpace {
         ];
         blocks.push(Block { k: 2, fields: zero.clone(), addrs: vec![None, Some(4), Some(8), Some(16)], size_sel: sizes.clone(), aligns: aligns.clone() });
         blocks.push(Block { k: 3, fields: zero, addrs: vec![None, Some(8)], size_sel: vec![0], aligns: vec![None, Some(4)] });
+        // addresses with three to five hex digits (generated padding of hundreds / thousands of bytes)
+        blocks.push(Block { k: 2, fields: sub.clone(), addrs: vec![None, Some(0x100), Some(0xFF8), Some(0x10000)], size_sel: vec![0, 1, 4], aligns: vec![None, Some(8)] });
         LayoutSpace { tier: tier.to_string(), with_aux, blocks, env: if with_aux { aux_env() } else { Env::default() } }
     }
     pub fn len(&self) -> usize {
